@@ -139,6 +139,23 @@ def _work(job: t.Tuple[t.Any, ...]) -> evid.Local:
                     for v in [b""] + SYMS + [x + y for x in SYMS[:8] for y in SYMS[:8]]:
                         rec(L.FilterExtensibleMatch(rule, a, v, dn), "ext")
         loc.distinct.add(("ext",))
+    elif fam == "large":
+        # beyond short values and shallow trees
+        big = [b"a" * 300, b"\\" * 40 + b"*" * 40 + b"(" * 40, bytes(range(256)) * 2, b" " * 70, b"\x00" * 129, "\u00e9".encode() * 150]
+        for v in big:
+            for name, mk in LEAF_MAKERS:
+                rec(mk(v, "cn"), name)
+            rec(L.FilterSubstrings("cn", v, [v, b"x", v], v), "sub")
+            rec(L.FilterSubstrings("cn", None, [b"%d" % i for i in range(40)] + [v], None), "sub")
+        leaf = L.FilterEquality("cn", b")(")
+        chain: t.Any = leaf
+        for i in range(60):
+            chain = L.FilterNot(chain) if i % 3 == 0 else L.FilterAnd([chain, leaf]) if i % 3 == 1 else L.FilterOr([leaf, chain])
+            if i in (9, 11, 29, 59):
+                rec(chain, "deep")
+        rec(L.FilterAnd([L.FilterEquality("cn", b"v%d*" % i) for i in range(300)]), "wide")
+        rec(L.FilterOr([L.FilterAnd([L.FilterPresent("a%d" % i), L.FilterNot(L.FilterApproxMatch("b", b"~%d" % i))]) for i in range(64)]), "wide")
+        loc.distinct.add(("large",))
     elif fam == "trees":
         lo, hi = job[1], job[2]
         for f in _X["trees"][lo:hi]:
@@ -164,7 +181,7 @@ def run(ctx: evid.Ctx) -> None:
     _X["trees"] = t2 + t3
     jobs: t.List[t.Tuple[t.Any, ...]] = [("all2", hi) for hi in range(256)]
     jobs += [("sym", s, maxlen) for s in SYMS]
-    jobs += [("empty",), ("ext",)]
+    jobs += [("empty",), ("ext",), ("large",)]
     jobs += [("sub", ini) for ini in [None] + comps]
     jobs += [("trees", a, b) for a, b in par.split(len(_X["trees"]), 64)]
     for loc in par.pmap(_work, jobs, ctx.seed):
